@@ -480,6 +480,15 @@ func TestC07(t *testing.T) {
 			x.Add(x, limit)
 		} else {
 			x = genBigBelow(limit).Draw(rt, "x")
+			if rapid.IntRange(0, 5).Draw(rt, "edge") == 0 {
+				// around the prime, around 2^64 and around small multiples of the prime
+				base := rapid.SampledFrom([]*big.Int{bigP, pow2(64), new(big.Int).Lsh(bigP, 1), new(big.Int).Mul(bigP, big.NewInt(3)), new(big.Int).Mul(bigP, bigP), new(big.Int).Lsh(bigP, 64), pow2(128)}).Draw(rt, "around")
+				x = new(big.Int).Add(base, big.NewInt(int64(rapid.IntRange(-2, 2).Draw(rt, "delta"))))
+				if x.Cmp(limit) >= 0 {
+					x.Sub(limit, big.NewInt(1))
+				}
+				class = "reduce-in-range/edge"
+			}
 		}
 		m := genMode().Draw(rt, "mode")
 		var cmask uint64
